@@ -236,7 +236,7 @@ Decode(c) ==
       Decl(n) ==
         CASE kind[n] = "var"  -> Var(SlotP(n), SlotF(n), sty[n], IF sty[n] = "direct" THEN "none" ELSE blk[n], ex[n], Refs(n))
           [] kind[n] = "zvar" -> ZVar(SlotP(n), SlotF(n), ex[n])
-          [] kind[n] = "func" -> Fn(SlotP(n), SlotF(n), blk[n], fk[n], rk[n], ex[n], Refs(n))
+          [] kind[n] = "func" -> Fn(SlotP(n), SlotF(n), IF pure[n] /\ blk[n] = "srv" THEN "trip" ELSE blk[n], fk[n], rk[n], ex[n], Refs(n))
           [] kind[n] = "init" -> Ini(SlotP(n), SlotF(n), blk[n], Refs(n))
           [] kind[n] = "main" -> Mn(SlotF(n), blk[n], Refs(n))
           [] kind[n] = "lref" -> LRef(SlotP(n), SlotF(n), ex[n], Tgt(n), "")
